@@ -45,8 +45,8 @@ func init() {
 		Bounds: func(tier string) map[string]interface{} {
 			return map[string]interface{}{
 				"transform_ground": "supplementary concrete enumeration (not symbolic): all strictly convex quadrilaterals with integer corners in 0..3 (thorough 0..4): corners map within 1e-6 in both directions",
-				"nudge":    "1-3 points with free float64 coordinates (|v| < 2^20) on images 1x1, 7x5, 64x64 (+ 2x9, 33x1, 1x40, 177x177 thorough)",
-				"sampling": "free 6x5 images (and 33x2), grids up to 8x6, every integer translation -3..5 (thorough -5..7) in both axes, both quarter turns; transform coefficients concrete",
+				"nudge":            "1-3 points with free float64 coordinates (|v| < 2^20) on images 1x1, 7x5, 64x64 (+ 2x9, 33x1, 1x40, 177x177 thorough)",
+				"sampling":         "free 6x5 images (and 33x2), grids up to 8x6, every integer translation -3..5 (thorough -5..7) in both axes, both quarter turns; transform coefficients concrete",
 			}
 		},
 		Exhaustive: func(tier string) bool { return false },
